@@ -119,6 +119,9 @@ func (g *gen) errorInOut(name string, typs []types.Type) (inTyp types.Type, outs
 	if !ok {
 		return nil, nil, fmt.Errorf("%s, the first argument, %s, is not of type function", name, g.TypeString(typs[0]))
 	}
+	if sig.Variadic() {
+		return nil, nil, fmt.Errorf("%s, the first argument, %s, is a variadic function, which is not supported", name, g.TypeString(typs[0]))
+	}
 	params := sig.Params()
 	if params.Len() != 1 {
 		return nil, nil, fmt.Errorf("%s, the first argument is a function, but wanted a function with one argument", name)
@@ -144,6 +147,9 @@ func (g *gen) stringOut(name string, typs []types.Type) (outTyp types.Type, err 
 	sig, ok := typs[0].(*types.Signature)
 	if !ok {
 		return nil, fmt.Errorf("%s, the first argument, %s, is not of type function", name, g.TypeString(typs[0]))
+	}
+	if sig.Variadic() {
+		return nil, fmt.Errorf("%s, the first argument, %s, is a variadic function, which is not supported", name, g.TypeString(typs[0]))
 	}
 	params := sig.Params()
 	if params.Len() != 1 {
@@ -175,6 +181,9 @@ func (g *gen) chanInOut(name string, typs []types.Type) (inTyp, outTyp types.Typ
 	if !ok {
 		return nil, nil, fmt.Errorf("%s, the first argument, %s, is not of type function", name, g.TypeString(typs[0]))
 	}
+	if sig.Variadic() {
+		return nil, nil, fmt.Errorf("%s, the first argument, %s, is a variadic function, which is not supported", name, g.TypeString(typs[0]))
+	}
 	params := sig.Params()
 	if params.Len() != 1 {
 		return nil, nil, fmt.Errorf("%s, the first argument is a function, but wanted a function with one argument", name)
@@ -201,6 +210,9 @@ func (g *gen) sliceInOut(name string, typs []types.Type) (inTyp types.Type, outT
 	sig, ok := typs[0].(*types.Signature)
 	if !ok {
 		return nil, nil, fmt.Errorf("%s, the first argument, %s, is not of type function", name, g.TypeString(typs[0]))
+	}
+	if sig.Variadic() {
+		return nil, nil, fmt.Errorf("%s, the first argument, %s, is a variadic function, which is not supported", name, g.TypeString(typs[0]))
 	}
 	params := sig.Params()
 	if params.Len() != 1 {
